@@ -332,6 +332,21 @@ def make_controls(pid):
         ctl.append(mut("C01_Pos", 15, lambda e, t: e["lines"][0]["ws"].__setitem__(1, _w("X", 2 * U))))
         ctl.append(mut("C01_Mode", 14, lambda e, t: e["rep"].__setitem__("rel", False)))
         ctl.append(mut("C01_Carries", 4, lambda e, t: e["lines"][0]["ws"].__setitem__(2, _w("B", 2 * U))))     # Y word mislabelled
+        # the conversion queries (beyond the listed properties): a converted point off by five units, a query that "moved" the tool
+        s2 = Session(dp=3, exact=True)
+        for d in [{"call": "move", "ax": [1.0, 2.0, None]}, {"call": "set_distance_mode", "mode": "relative"},
+                  {"call": "to_absolute", "ax": [1.0, None, 2.0]}, {"call": "to_absolute_list", "pts": [[1.0, 1.0], [0.0, 2.0, 3.0]]}]:
+            s2.apply(d)
+        b2 = s2.trace({"driver": "control-base"})
+
+        def mut2(clause, step, fn):
+            t = copy.deepcopy(b2)
+            fn(t["ev"][step - 1], t)
+            t["meta"]["control"] = {"clause": clause, "step": step}
+            return t
+        ctl.append(mut2("CV_Convert", 3, lambda e, t: e["conv"][0].__setitem__(0, e["conv"][0][0] + 5 * U)))
+        ctl.append(mut2("CV_Convert", 4, lambda e, t: e["conv"][1].__setitem__(2, e["conv"][1][2] + 5 * U)))
+        ctl.append(mut2("CV_Pure", 3, lambda e, t: bump(e["rep"]["pos"][0])))
     if pid == "C02":
         ctl.append(mut("C02_Safe", 11, lambda e, t: e["lines"].append({"ws": [_w("S", 5 * U), _w("M", 40)], "c": False})))
         ctl.append(mut("C02_Safe", 10, lambda e, t: e["lines"].append({"ws": [_w("M", 0)], "c": False})))
@@ -574,7 +589,18 @@ def run(pid, tier, replay_path=None):
             deferred.append("clauses never exercised: %s" % idle)
 
     mine = [f for f in failures if f[0] < nreal and f[2] in clauses]
-    others = sorted({f[2] for f in failures if f[0] < nreal and f[2] not in clauses})
+    # the conversion queries (to_absolute / to_distance_mode / to_absolute_list) belong to no listed property: notes only
+    beyond = ("CV_Convert", "CV_Pure")
+    cvf = [f for f in failures if f[0] < nreal and f[2] in beyond]
+    cv_checks = sum(done[i][1].get("CV_Convert", 0) for i in range(nreal))
+    if cv_checks or cvf:
+        cov["conversion_queries"] = {"calls_checked": cv_checks, "failures": len(cvf),
+                                     "first_failures": [[f[0], f[1], f[2]] for f in cvf[:3]]}
+    if cvf:
+        e0 = traces[cvf[0][0]]["ev"][cvf[0][1] - 1]
+        say("NOTE conversion queries (beyond the listed properties): %d clause failures, first: %s on %s" %
+            (len(cvf), cvf[0][2], json.dumps({"call": e0["call"], "a": e0["a"].get("ax"), "conv": e0.get("conv")})[:300]))
+    others = sorted({f[2] for f in failures if f[0] < nreal and f[2] not in clauses and f[2] not in beyond})
     if others:
         say("NOTE clauses of other properties failed in these executions (judged by their own checks): %s" % others)
     viol, known_hit = [], {}
